@@ -28,6 +28,7 @@ TECHNIQUE += '; the analysis runs over every rule (= C16.R3)'
 LEVEL_TEXT += ' Added clause: rules reached only through start=, an include or a base rule are analysed too.'
 TECHNIQUE += '; the store of left-recursion seeds is not an evicting container (= C04.R9)'
 TECHNIQUE += '; the seed store is rebuilt per parse (= C06.R6)'
+TECHNIQUE += '; the store of growing seeds is pruned only by its owners (C03.R7 = C04.R2, stores followed through helpers and loops over displays)'
 LEVEL_NOTE = 'Positions are bounded by the text length, so a strictly increasing lastpos bounds the number of iterations.'
 EXPLANATION = ('Static analysis of /repo sources, TatSu not imported. recursive_call is executed abstractly with flags and test '
                'hooks; pegen._callable_rule_ids/_is_nullable_safe and the is_nullable methods are interpreted on stand-in trees.')
